@@ -64,6 +64,8 @@ structure St where
   hsAck : Bool := false
   confirmed : Bool := false
   aaLimit : Bool := true
+  disc0 : Bool := false        -- discarded_epochs[Initial]
+  disc1 : Bool := false        -- discarded_epochs[Handshake]
 deriving Repr, Inhabited
 
 /-- float-derived inputs, read from the implementation before (`0`) and after (`1`) the operation -/
@@ -232,7 +234,7 @@ def peerCompleted (s : St) : Bool := s.server || s.hsAck || s.confirmed
 
 /-- `Rtt::base_pto` (integer `Duration` arithmetic; `1 << pto_count` is `u32`) -/
 def basePto (srtt rttvar n : Nat) : Nat :=
-  srtt + max (rttvarFactor * rttvar) (granularityMs * 1000000) * 2 ^ n
+  (srtt + max (rttvarFactor * rttvar) (granularityMs * 1000000)) * 2 ^ n
 
 /-- `get_loss_time_and_epoch` (`min_by_key` keeps the first of equal minima) -/
 def lossTimeAndEpoch (s : St) : Option (Nat × Nat) :=
@@ -305,11 +307,21 @@ def onTimeout (s : St) (i : Inp) : Except String (St × List (Nat × List Nat)) 
     (setTimer (bumpPto s1) i.srtt1 i.rttvar1).bind fun s2 =>
     .ok (s2, [])
 
-/-- state after `PacketSpace::discard` and the resets of `discard_epoch`, before `set_loss_detection_timer` -/
+def isDiscarded (s : St) : Nat → Bool
+  | 0 => s.disc0
+  | _ => s.disc1
+
+def markDiscarded (s : St) : Nat → St
+  | 0 => { s with disc0 := true }
+  | _ => { s with disc1 := true }
+
+/-- state after `PacketSpace::discard` and the resets of `discard_epoch`, before `set_loss_detection_timer`:
+`pto_count` is reset only the first time the space is discarded -/
 def discardReset (s : St) (e : Nat) (bytes : Nat) : St :=
   let sp := getSp s e
   let s1 := setSp { s with bytes := bytes } e { sp with sent := [], tl := none, lt := none }
-  { s1 with timer := none, pto := 0 }
+  let s2 := { s1 with timer := none }
+  if isDiscarded s e then s2 else markDiscarded { s2 with pto := 0 } e
 
 /-- `PacketSpace::discard` + `CongestionController::discard_epoch` -/
 def discardEpoch (s : St) (e : Nat) (srtt rttvar : Nat) : Except String St :=
